@@ -1321,6 +1321,7 @@ def h_index(func, args, kwargs):
             else:
                 css.append(_value_cases(v, a.shape[d]))
         combos = []
+        oob = []
         for combo in itertools.product(*css):
             g = True
             for gg, _ in combo:
@@ -1329,8 +1330,14 @@ def h_index(func, args, kwargs):
                 continue
             idx = tuple(x for _, x in combo)
             if any(not (-a.shape[d] <= x < a.shape[d]) for d, x in enumerate(idx)):
-                raise IndexError("symbolic index can leave the table")
+                oob.append(g)
+                continue
             combos.append((g, idx))
+        if oob:
+            # the real code raises IndexError exactly for the inputs on which the index leaves the table: fork on it
+            cond = z3.Or([S.zbool(g) for g in oob]) if len(oob) > 1 else S.zbool(oob[0])
+            if Ctx.cur.decide(cond):
+                raise IndexError("index out of range (symbolic index leaves the table on this path)")
         for tpos in np.ndindex(*tail):
             out[pos + tpos] = _collapse_lookup([(g, a[idx + tpos]) for g, idx in combos])
     return from_arr(out, base.dtype)
